@@ -533,8 +533,24 @@ def partition_complement_rule(chk, cid, prog, cfgname):
                 mv = strip(nxt.c[0])
                 n += 1
                 inst = '%s:scan-and-move-are-complements@%d' % (fname, n)
-                want = (canon(elem.c[0]), NEG[elem.a['op']], canon(elem.c[1]))
-                got = (canon(mv.c[0]), mv.a.get('op'), canon(mv.c[1])) if mv.k == 'Binary' else None
+                SWAP = {'<': '>', '>': '<', '<=': '>=', '>=': '<=', '==': '==', '!=': '!='}
+
+                def ncmp(e, neg=False):
+                    # (element text, operator, other text) with the array element on the left; `!` pushed into the operator
+                    e = strip(e)
+                    if e.k == 'Unary' and e.a['op'] == '!':
+                        return ncmp(e.c[0], not neg)
+                    if e.k != 'Binary' or e.a['op'] not in NEG:
+                        return None
+                    op, l, r = e.a['op'], e.c[0], e.c[1]
+                    if strip(l).k != 'Index' and strip(r).k == 'Index':
+                        op, l, r = SWAP[op], r, l
+                    if neg:
+                        op = NEG[op]
+                    return (canon(l), op, canon(r))
+                w0 = ncmp(elem)
+                want = (w0[0], NEG[w0[1]], w0[2])
+                got = ncmp(mv)
                 if got == want:
                     chk.ok(cid, inst, sample='scan while `%s`, move if `%s`' % (pretty(elem), pretty(mv)))
                 else:
